@@ -17,8 +17,23 @@ open VaxisModel.Lemmas.EdLangLoops
 @[simp] theorem genTi_setContent : genTi.setContent = tiSetContent := rfl
 @[simp] theorem genTi_update : genTi.update = tiUpdate := rfl
 @[simp] theorem genTi_resegment : genTi.resegment = tiResegment := rfl
+@[simp] theorem genTi_isAlnum : genTi.isAlnum = tiIsAlphaNumeric := rfl
 
 variable {A : Type} [DecidableEq A]
+
+/-- `isAlphaNumeric`: a single code point that is a letter or a number; every grapheme of several code points is not. -/
+theorem isAlphaNumeric_body_eq_model (isLetter isNumber : A → Bool) (c : List A) (hc : c ≠ []) :
+    tiIsAlnumI genTi isLetter isNumber c = some (match c with | [a] => isLetter a || isNumber a | _ => false) := by
+  cases c with
+  | nil => exact absurd rfl hc
+  | cons a t =>
+    cases t with
+    | nil =>
+      cases h1 : isLetter a <;> cases h2 : isNumber a <;>
+      simp [tiIsAlnumI, runFn, tiIsAlphaNumeric, execB, execS, evalE, getV, setV, cmpV, cmpI, h1, h2]
+    | cons b u =>
+      have h1 : (1 : Int) < (u.length : Int) + 1 + 1 := by omega
+      simp [tiIsAlnumI, runFn, tiIsAlphaNumeric, execB, execS, evalE, getV, setV, cmpV, cmpI, h1]
 
 /-- `SetContent` -/
 theorem setContent_body_eq_model (cl : List A → List (List A)) (al : List A → Bool) (m : TIC A) (s : List A) :
